@@ -28,6 +28,9 @@ func AcceptTLSConn(l net.Listener) (*tls.Conn, error) {
 	return tlsConn, nil
 }
 
+// exchangeTimeout bounds the exchange of records after the handshake.
+const exchangeTimeout = 5 * time.Second
+
 func dialTLS(hostport string, config *tls.Config) (*tls.Conn, Data, error) {
 	config.NextProtos = []string{alpn}
 
@@ -78,6 +81,15 @@ func exchangeDataTLS(ctx context.Context, log *slog.Logger, conn *tls.Conn, data
 	msg.AddRecord(end)
 
 	buf, err := msg.Pack()
+	if err != nil {
+		return err
+	}
+
+	deadline := time.Now().Add(exchangeTimeout)
+	if d, ok := ctx.Deadline(); ok && d.Before(deadline) {
+		deadline = d
+	}
+	err = conn.SetDeadline(deadline)
 	if err != nil {
 		return err
 	}
